@@ -65,16 +65,16 @@ mutual
     | fuel+1, tp, ds =>
       let ds := match tp with
         | .generic id params =>
-          (match lookup items id with
+          let ds := (match lookup items id with
           | some thing =>
             let (fresh, ds) := ds.insert id
             if fresh then
               let ds := ds.push id
               let ds := depsItem items fuel thing ds
-              let ds := params.foldl (fun (ds : DS) (p : RustType) => depsType items fuel p ds) ds
               ds.remove id
             else ds
           | none => ds)
+          params.foldl (fun (ds : DS) (p : RustType) => depsType items fuel p ds) ds
         | .simple id =>
           (match lookup items id with
           | some thing =>
